@@ -4,7 +4,7 @@ manifest stays valid while properties move from not_applicable to claimed)."""
 import json, subprocess
 
 HOOK_COMMITS = subprocess.run(
-    ["git", "-C", "/repo", "log", "--format=%h", "--grep=^verif:"],
+    ["git", "-C", "/repo", "log", "--format=%h", "--grep=^verif"],
     capture_output=True, text=True).stdout.split()
 
 TRUST = ("Trusted base: go/packages+go/ssa (x/tools v0.29.0) SSA construction, the gvc VC generator, "
